@@ -1,7 +1,8 @@
-/- GENERATED on every run by harness/corr/C18_table.py from src/py_gql/lang/visitor.py and src/py_gql/lang/ast.py.
+/- GENERATED on every run by harness/corr/C18_table.py from src/py_gql/lang/visitor.py and src/py_gql/lang/ast.py
+   (+ witness documents parsed by src/py_gql/lang/parser.py).
    Do not edit: the check rewrites this file from /repo's working tree. -/
 
-import PyGqlModel.VisitTypes
+import PyGqlModel.Visit
 namespace PyGql.Generated.VisitTable
 open PyGql.Visit
 
@@ -271,5 +272,19 @@ def leaveRegistry : List (String × String) := [
 ]
 
 def table : Table := { methods := methods, visit := visitDispatch, dispatchers := dispatchers, slots := slots }
+
+/-! witness documents, parsed by the real parser on this run (attribute `loc` dropped, ids = pre-order numbers) -/
+/-- `query Q($v: [Int!] = 1 @d) { ... on T { a } } fragment F($w: Int) on T { a }` -/
+def witnessExec : Node :=
+  .mk "Document" 0 [("definitions", .many [.mk "OperationDefinition" 1 [("operation", .scalar "\"query\""), ("name", .one (some (.mk "Name" 2 [("value", .scalar "\"Q\"")]))), ("variable_definitions", .many [.mk "VariableDefinition" 3 [("variable", .one (some (.mk "Variable" 4 [("name", .one (some (.mk "Name" 5 [("value", .scalar "\"v\"")])))]))), ("type", .one (some (.mk "ListType" 6 [("type", .one (some (.mk "NonNullType" 7 [("type", .one (some (.mk "NamedType" 8 [("name", .one (some (.mk "Name" 9 [("value", .scalar "\"Int\"")])))])))])))]))), ("default_value", .one (some (.mk "IntValue" 10 [("value", .scalar "\"1\"")]))), ("directives", .many [.mk "Directive" 11 [("name", .one (some (.mk "Name" 12 [("value", .scalar "\"d\"")]))), ("arguments", .many [])]])]]), ("directives", .many []), ("selection_set", .one (some (.mk "SelectionSet" 13 [("selections", .many [.mk "InlineFragment" 14 [("type_condition", .one (some (.mk "NamedType" 15 [("name", .one (some (.mk "Name" 16 [("value", .scalar "\"T\"")])))]))), ("directives", .many []), ("selection_set", .one (some (.mk "SelectionSet" 17 [("selections", .many [.mk "Field" 18 [("name", .one (some (.mk "Name" 19 [("value", .scalar "\"a\"")]))), ("alias", .one none), ("arguments", .many []), ("directives", .many []), ("selection_set", .one none)]])])))]])])))], .mk "FragmentDefinition" 20 [("name", .one (some (.mk "Name" 21 [("value", .scalar "\"F\"")]))), ("variable_definitions", .many [.mk "VariableDefinition" 22 [("variable", .one (some (.mk "Variable" 23 [("name", .one (some (.mk "Name" 24 [("value", .scalar "\"w\"")])))]))), ("type", .one (some (.mk "NamedType" 25 [("name", .one (some (.mk "Name" 26 [("value", .scalar "\"Int\"")])))]))), ("default_value", .one none), ("directives", .many [])]]), ("type_condition", .one (some (.mk "NamedType" 27 [("name", .one (some (.mk "Name" 28 [("value", .scalar "\"T\"")])))]))), ("directives", .many []), ("selection_set", .one (some (.mk "SelectionSet" 29 [("selections", .many [.mk "Field" 30 [("name", .one (some (.mk "Name" 31 [("value", .scalar "\"a\"")]))), ("alias", .one none), ("arguments", .many []), ("directives", .many []), ("selection_set", .one none)]])])))]])]
+
+/-- `schema @d { query: Q } "sd" scalar S "td" type T { "fd" f("ad" x: Int = 1): Int } "id" interface I { f: Int } "ud" union U = T "ed" enum E { "vd" A } "nd" input N { "xd" x: Int } "dd" directive @d on FIELD` -/
+def witnessSdl : Node :=
+  .mk "Document" 0 [("definitions", .many [.mk "SchemaDefinition" 1 [("directives", .many [.mk "Directive" 2 [("name", .one (some (.mk "Name" 3 [("value", .scalar "\"d\"")]))), ("arguments", .many [])]]), ("operation_types", .many [.mk "OperationTypeDefinition" 4 [("operation", .scalar "\"query\""), ("type", .one (some (.mk "NamedType" 5 [("name", .one (some (.mk "Name" 6 [("value", .scalar "\"Q\"")])))])))]])], .mk "ScalarTypeDefinition" 7 [("description", .one (some (.mk "StringValue" 8 [("value", .scalar "\"sd\""), ("block", .scalar "false")]))), ("name", .one (some (.mk "Name" 9 [("value", .scalar "\"S\"")]))), ("directives", .many [])], .mk "ObjectTypeDefinition" 10 [("description", .one (some (.mk "StringValue" 11 [("value", .scalar "\"td\""), ("block", .scalar "false")]))), ("name", .one (some (.mk "Name" 12 [("value", .scalar "\"T\"")]))), ("interfaces", .many []), ("directives", .many []), ("fields", .many [.mk "FieldDefinition" 13 [("description", .one (some (.mk "StringValue" 14 [("value", .scalar "\"fd\""), ("block", .scalar "false")]))), ("name", .one (some (.mk "Name" 15 [("value", .scalar "\"f\"")]))), ("arguments", .many [.mk "InputValueDefinition" 16 [("description", .one (some (.mk "StringValue" 17 [("value", .scalar "\"ad\""), ("block", .scalar "false")]))), ("name", .one (some (.mk "Name" 18 [("value", .scalar "\"x\"")]))), ("type", .one (some (.mk "NamedType" 19 [("name", .one (some (.mk "Name" 20 [("value", .scalar "\"Int\"")])))]))), ("default_value", .one (some (.mk "IntValue" 21 [("value", .scalar "\"1\"")]))), ("directives", .many [])]]), ("type", .one (some (.mk "NamedType" 22 [("name", .one (some (.mk "Name" 23 [("value", .scalar "\"Int\"")])))]))), ("directives", .many [])]])], .mk "InterfaceTypeDefinition" 24 [("description", .one (some (.mk "StringValue" 25 [("value", .scalar "\"id\""), ("block", .scalar "false")]))), ("name", .one (some (.mk "Name" 26 [("value", .scalar "\"I\"")]))), ("directives", .many []), ("fields", .many [.mk "FieldDefinition" 27 [("description", .one none), ("name", .one (some (.mk "Name" 28 [("value", .scalar "\"f\"")]))), ("arguments", .many []), ("type", .one (some (.mk "NamedType" 29 [("name", .one (some (.mk "Name" 30 [("value", .scalar "\"Int\"")])))]))), ("directives", .many [])]])], .mk "UnionTypeDefinition" 31 [("description", .one (some (.mk "StringValue" 32 [("value", .scalar "\"ud\""), ("block", .scalar "false")]))), ("name", .one (some (.mk "Name" 33 [("value", .scalar "\"U\"")]))), ("directives", .many []), ("types", .many [.mk "NamedType" 34 [("name", .one (some (.mk "Name" 35 [("value", .scalar "\"T\"")])))]])], .mk "EnumTypeDefinition" 36 [("description", .one (some (.mk "StringValue" 37 [("value", .scalar "\"ed\""), ("block", .scalar "false")]))), ("name", .one (some (.mk "Name" 38 [("value", .scalar "\"E\"")]))), ("directives", .many []), ("values", .many [.mk "EnumValueDefinition" 39 [("description", .one (some (.mk "StringValue" 40 [("value", .scalar "\"vd\""), ("block", .scalar "false")]))), ("name", .one (some (.mk "Name" 41 [("value", .scalar "\"A\"")]))), ("directives", .many [])]])], .mk "InputObjectTypeDefinition" 42 [("description", .one (some (.mk "StringValue" 43 [("value", .scalar "\"nd\""), ("block", .scalar "false")]))), ("name", .one (some (.mk "Name" 44 [("value", .scalar "\"N\"")]))), ("directives", .many []), ("fields", .many [.mk "InputValueDefinition" 45 [("description", .one (some (.mk "StringValue" 46 [("value", .scalar "\"xd\""), ("block", .scalar "false")]))), ("name", .one (some (.mk "Name" 47 [("value", .scalar "\"x\"")]))), ("type", .one (some (.mk "NamedType" 48 [("name", .one (some (.mk "Name" 49 [("value", .scalar "\"Int\"")])))]))), ("default_value", .one none), ("directives", .many [])]])], .mk "DirectiveDefinition" 50 [("description", .one (some (.mk "StringValue" 51 [("value", .scalar "\"dd\""), ("block", .scalar "false")]))), ("name", .one (some (.mk "Name" 52 [("value", .scalar "\"d\"")]))), ("arguments", .many []), ("locations", .many [.mk "Name" 53 [("value", .scalar "\"FIELD\"")]])]])]
+
+/-- `{ a(x: 1) @d b { c } }` -/
+def witnessSmall : Node :=
+  .mk "Document" 0 [("definitions", .many [.mk "OperationDefinition" 1 [("operation", .scalar "\"query\""), ("name", .one none), ("variable_definitions", .many []), ("directives", .many []), ("selection_set", .one (some (.mk "SelectionSet" 2 [("selections", .many [.mk "Field" 3 [("name", .one (some (.mk "Name" 4 [("value", .scalar "\"a\"")]))), ("alias", .one none), ("arguments", .many [.mk "Argument" 5 [("name", .one (some (.mk "Name" 6 [("value", .scalar "\"x\"")]))), ("value", .one (some (.mk "IntValue" 7 [("value", .scalar "\"1\"")])))]]), ("directives", .many [.mk "Directive" 8 [("name", .one (some (.mk "Name" 9 [("value", .scalar "\"d\"")]))), ("arguments", .many [])]]), ("selection_set", .one none)], .mk "Field" 10 [("name", .one (some (.mk "Name" 11 [("value", .scalar "\"b\"")]))), ("alias", .one none), ("arguments", .many []), ("directives", .many []), ("selection_set", .one (some (.mk "SelectionSet" 12 [("selections", .many [.mk "Field" 13 [("name", .one (some (.mk "Name" 14 [("value", .scalar "\"c\"")]))), ("alias", .one none), ("arguments", .many []), ("directives", .many []), ("selection_set", .one none)]])])))]])])))]])]
+
 
 end PyGql.Generated.VisitTable
